@@ -318,7 +318,7 @@ def run_program(res, case):
                     continue
                 if op == "sub" and la < lb:
                     # a negative difference is not a weight: the result is a plain float.  It is judged for operands of
-                    # any magnitude: -(e^lb - e^la) to within (8 + |log of the result|) ulp of the RESULT (turning a
+                    # any magnitude: -(e^lb - e^la) to within (8 + 4 |log of the result|) ulp of the RESULT (turning a
                     # log-value into a plain value costs |log-value| ulp); -inf where that overflows; never NaN
                     out = a - b
                     if not isinstance(out, float):
@@ -340,7 +340,9 @@ def run_program(res, case):
                         continue                                  # sub-normal range: not judged
                     exact = -d_exp(log_mag)
                     err = ulp_err(out, exact)
-                    if err > 8 + abs(float(log_mag)):
+                    # log-value of the magnitude: b + log1m_exp(a - b), each term with an error of about one ulp OF ITS
+                    # OWN SIZE (~|log|), then exp() turns an absolute error d in the log-value into a relative error d
+                    if err > 8 + 4 * abs(float(log_mag)):
                         res.fail(key + ":negative-difference:precision", f"LogRepFloat(log_val={la!r}) - LogRepFloat(log_val="
                                  f"{lb!r}) = {out!r}, error {err:.3g} ulp of the result", la=la, lb=lb)
                     continue
